@@ -115,8 +115,12 @@ CHECKS['C12'] = dict(
          'CR/LF layout parses to the same segments (reencode_invariant, read_encoded, reencode_invariant_reader), so everything downstream of '
          'the reader sees identical input. That the rest of the real pipeline consults the text only through the parsed segments is decided by '
          'the metamorphic run on the real code: generated documents with 0-2 faults x delimiter triples x line-break styles must give the same '
-         'verdict, error set (level, code, segment position, element position, value) and acknowledgement body.',
-    note=COMMON_NOTE + ' PARTIAL: the pipeline behind the reader is not modelled end to end here; its delimiter independence is exercised, not proved.',
+         'verdict, error set (level, code, segment position, element position, value) and acknowledgement body. End to end (Model/Document): '
+         'doc_delimiter_independent (terminator / element separator) and doc_delimiter_independent_sub (component separator too: outcome, verdict, '
+         'per-segment results, events and final error tree equal up to renaming the separator inside data strings, under SepNeutral: the separators '
+         'occur in no map string and are not characters int() gives a meaning to); the earlier _sub_full statement is refuted by a kernel-evaluated '
+         'witness and IntNeutral is shown necessary (the listed count-composite-int finding).',
+    note=COMMON_NOTE + ' PARTIAL: the acknowledgement TEXT is proved equal only at the level of the error tree it is generated from (ack_canonical, ack_eq_of_fixed); its rendering is exercised by the metamorphic run.',
     technique='Lean 4 proof (re-encoding invariance of the reader) + metamorphic run of the real validator',
     design='DESIGN.md §3 C12')
 
@@ -128,7 +132,10 @@ CHECKS['C08'] = dict(
          'document round-trips (rebuild_identity, doc_roundtrip), under the per-map hypotheses wfIds and noSiblingLoopIdPrefix (evaluated '
          'exhaustively over all shipped maps by the compiled model and independently in Python on every run). Tied to /repo by generated '
          'documents (markup characters, blanks, non-ASCII, 70+ delimiter triples): real XML parsed with xml.etree, nesting compared with '
-         'the matched nodes, converted back with the real xmlx12_simple and compared; event stream compared with the model.',
+         'the matched nodes, converted back with the real xmlx12_simple and compared; event stream compared with the model. Text level '
+         '(Model/Convert = xmlx12_simple.convert feeding X12Writer): convertText_complete, text_roundtrip_generated (segments equal, trailers '
+         'included), text_roundtrip_identity (canonical layout: identical text), text_roundtrip_repairs_counts; compared byte for byte with '
+         'the real x12n_document + convert on 1 800 layout / delimiter / count variants (op CVTXT).',
     note=COMMON_NOTE + ' xml.etree is trusted to parse well-formed XML; data characters exclude C0 controls and the fixed output delimiters of xmlx12_simple; X12Writer (trailers) is covered by C11.',
     technique='Lean 4 proof (stack invariant, balance, escape inverse, rebuild identity) + round-trip differential on generated documents',
     design='DESIGN.md §3 C08')
@@ -235,11 +242,14 @@ CHECKS['C07'] = dict(
          'are the three err_handler call sites listed as findings (plus map inconsistencies the translator excludes); it assembles the theorems '
          'of C01, C04, C13, C14, C15. ctxDoc_total_sharp does the same for the composed context-reader model (only the listed _add_segment '
          'finding is reachable, plus five tree exits neither proved unreachable nor observed); the XML/HTML sinks are composed in '
-         'Model/DocSinks.lean. NOT modelled: logging, exceptions swallowed around the acknowledgement visitors, file opening. Tied to /repo '
-         'by a structural mutation fuzz (22 maps x 49 mutation kinds + arbitrary strings x sink subsets x charsets) through x12n_document, '
+         'Model/DocSinks.lean: doc_sinks_total (docXml_total_holds, docHtml_total_holds: output written iff validation returns a verdict, '
+         'well-formed and escaped) under CtlIsaOK; doc_envelope_order / doc_total_sharp_holds under the decidable map hypothesis EnvNested, '
+         'evaluated on the loaded maps by the compiled model on every run (op NESTOK; a failing map is a broken hypothesis); walk_nested '
+         'holds without any map hypothesis. NOT modelled: logging, exceptions swallowed around the acknowledgement visitors, file opening. Tied to /repo '
+         'by a structural mutation fuzz (22 maps x 50 mutation kinds + arbitrary strings x sink subsets x charsets) through x12n_document, '
          'X12Reader and X12ContextReader.iter_segments: any escaping exception other than the documented refusals is a violation keyed by '
          'exception type and innermost pyx12 call site, with a shrunk replay; the reader-level outcome class is also compared with the model.',
-    note=COMMON_NOTE + ' PARTIAL: proof for the end-to-end model (reader, walker, validation, error tree, acknowledgement); sinks and context reader are exercised, not proved. Exceptions swallowed inside the ack visitors belong to C06.',
+    note=COMMON_NOTE + ' PARTIAL: proofs are about the end-to-end model (reader, walker, validation, error tree, acknowledgement, sinks, context reader); logging and file handling are outside it. Exceptions swallowed inside the ack visitors belong to C06.',
     technique='Lean 4 proof (no crash outcome in the composed reader/validation model) + structural mutation fuzz keyed by call site',
     design='DESIGN.md §3 C07')
 
